@@ -211,6 +211,7 @@ def run(tier: str, rep: Report):
         pool.close()
 
     fails = validate_traces(rep, files, "c10")
+    rep.failing_ids = {f["id"] for f in fails}
 
     def corrupt(e):
         if not e.get("has_pub") or e.get("pub_exc") or not e.get("pub_lines"):
